@@ -150,7 +150,7 @@ def run(F, rep, tier, allfacts):
                 ok = any(sm.endswith(a) for a in allowed[fld])
                 rep.check(ok, "COV-receipts", "writer:%s.%s" % (sm.rsplit("::", 2)[-2] + "::" + sm.rsplit("::", 1)[-1], fld), "%s:%s" % (cg.fns[m]["file"], line),
                           "UNREVIEWED writer of ReceiptsCtx.%s: %s" % (fld, m))
-    dn, df = F.find(r"^<fuel_vm::interpreter::receipts::ReceiptsCtxMut<'_> as std::ops::Drop>::drop$", ["fuel_vm"], one=True)
+    dn, df = F.find(r"^<fuel_vm::interpreter::receipts::ReceiptsCtxMut<'_> as std::ops::(drop::)?Drop>::drop$", ["fuel_vm"], one=True)
     rep.check(bool(call_blocks(df, r"ReceiptsCtx::recalculate_root$")) and CFG(df).must_pass(call_blocks(df, r"ReceiptsCtx::recalculate_root$")), "COV-receipts",
               "guard-drop-recalculates", "%s:%s" % (df["file"], df["line"]), "dropping ReceiptsCtxMut must recompute the Merkle root")
 
